@@ -594,7 +594,11 @@ def judge(uni, ref, d, outcome):
     if op == "solution":
         e = uni.parse(d["e"])
         w = e.size()
-        if e.op == "BVV":   # constants are answered without looking at the constraints (ConcreteHandlerMixin), by design
+        if e.op == "BVV":   # constants are answered without looking at the constraints (ConcreteHandlerMixin), by design;
+            # a solver without that mixin (the children a SolverComposite hands out) asks Z3, which says False when the
+            # constraints have no model — also what the statement says (no model has e == v)
+            if sm == 0 and not val:
+                return None
             return None if bool(val) == (e.args[0] == d["v"] % (1 << w)) else ("wrong-constant", "solution(%s, %d) = %s" % (d["e"], d["v"], val))
         feas = bool(uni.vmask(e).get(d["v"] % (1 << w), 0) & sm)
         if bool(val) != feas:
